@@ -389,7 +389,7 @@ enum DStatus { D_OK, D_INCOMPLETE, D_MALFORMED };
 // strict = everything the specification lets a receiver reject; structural = only what makes the packet unparseable
 // (framing, lengths, property identifiers/types, header flags, inadmissible reason codes, trailing bytes): no UTF-8
 // content rules and no value-range (Protocol Error) rules.
-struct DecOpts { bool utf8 = true; bool ranges = true; };
+struct DecOpts { bool utf8 = true; bool ranges = true; };   // ranges=false also tolerates non-minimal varints and an absent Property Length
 inline DecOpts& dec_opts() { static thread_local DecOpts o; return o; }
 struct StructuralScope { DecOpts saved; StructuralScope() : saved(dec_opts()) { dec_opts().utf8 = false; dec_opts().ranges = false; } ~StructuralScope() { dec_opts() = saved; } };
 struct DResult { DStatus st = D_MALFORMED; Packet pkt; size_t consumed = 0; std::string why; };
@@ -407,7 +407,7 @@ struct Rd {
         for (int k = 0; k < 4; ++k) {
             if (left() < 1) { fail = true; return 0; }
             uint8_t b = p[i++]; v |= uint32_t(b & 0x7F) << shift; shift += 7;
-            if (!(b & 0x80)) { if (k > 0 && b == 0) fail = true; return v; }
+            if (!(b & 0x80)) { if (k > 0 && b == 0 && dec_opts().ranges) fail = true; return v; }   // non-minimal encoding: value rule
         }
         fail = true; return 0;
     }
@@ -416,6 +416,7 @@ struct Rd {
 };
 
 inline bool dec_props(Rd& r, int ptype, Props& out, std::string& why) {
+    if (r.left() == 0 && !dec_opts().ranges) return true;   // structural mode: an absent Property Length reads as 'no properties'
     uint32_t len = r.varint();
     if (r.fail) { why = "property length"; return false; }
     if (r.left() < len) { why = "property length exceeds packet"; return false; }
